@@ -1084,42 +1084,102 @@ def opt1(ctx: Ctx) -> None:
 
 
 def opt2(ctx: Ctx) -> None:
+    """OPT-2 everything ExtractOptions.push changes on the (thread-local) options object is saved before and restored, from the
+    saved value, in a finally that encloses the yield -- unconditionally and per push.  A field that is set or reset only for
+    the outermost push (a memo, a counter) is state shared between an extraction and the extractions nested inside it."""
     mod = _engine_mod(ctx)
-    # OPT-2 push
     cls = mod.fn("ExtractOptions")
     fields = [norm(s.target) for s in cls.body if isinstance(s, ast.AnnAssign)]
-    if set(fields) != {"with_contexts", "recurse_child_tasks"}:
+    if not {"with_contexts", "recurse_child_tasks"} <= set(fields):
         raise AnalysisError(f"OPT-2: option fields changed: {fields}")
     push = mod.fn("ExtractOptions.push")
+    ctx.R.saw(mod, "ExtractOptions.push")
     decs = [norm(d) for d in push.decorator_list]
     if "contextmanager" not in decs and "contextlib.contextmanager" not in decs:
         ctx.R.fail("OPT-2", mod, push, "push must be a @contextmanager")
-    g = ctx.cfg(push)
-    tries = [s for s in push.body if isinstance(s, ast.Try)]
-    saves = [s for s in push.body if isinstance(s, ast.Assign) and isinstance(s.value, ast.Tuple)
-             and sorted(norm(e) for e in s.value.elts) == ["self.recurse_child_tasks", "self.with_contexts"]]
-    ok2 = False
-    if len(tries) == 1 and tries[0].finalbody and len(saves) == 1:
-        t = tries[0]
-        sv = saves[0]
-        svar = norm(sv.targets[0])
-        writes = [s for s in push.body if isinstance(s, ast.Assign) and norm(s.targets[0]).startswith("self.")]
-        yields = [y for y in ast.walk(t) if isinstance(y, ast.Yield)]
-        in_try_body = yields and all(in_body(t.body, y, mod) for y in yields)
-        restore = [s for s in t.finalbody if isinstance(s, ast.Assign) and norm(s.value) == svar]
-        order_ok = all(w.lineno > sv.lineno for w in writes) and sv.lineno < t.lineno
-        rest_ok = False
-        if len(restore) == 1 and isinstance(restore[0].targets[0], ast.Tuple):
-            rest_ok = [norm(e) for e in restore[0].targets[0].elts] == [norm(e) for e in sv.value.elts]
-        wr_ok = {norm(w.targets[0]): norm(w.value) for w in writes} == {"self.with_contexts": "with_contexts", "self.recurse_child_tasks": "recurse_child_tasks"}
-        ok2 = bool(in_try_body and order_ok and rest_ok and wr_ok and len(yields) == 1)
-        if not wr_ok:
-            ctx.R.fail("OPT-2", mod, push, "push must store each argument into the same-named field", construct="self.<opt> = <opt>")
-    if ok2:
-        ctx.R.ok("OPT-2", "push saves both fields before writing them and restores exactly the saved pair in a finally that encloses the yield")
-    elif not any(f.rule == "OPT-2" for f in ctx.R.findings):
-        ctx.R.fail("OPT-2", mod, push, "push must save both option fields before overwriting them and restore the saved pair in a `finally` enclosing the yield: "
+    tries = [s for s in push.body if isinstance(s, ast.Try) and s.finalbody and any(isinstance(y, ast.Yield) for y in ast.walk(ast.Module(body=s.body, type_ignores=[])))]
+    yields = [y for y in ast.walk(push) if isinstance(y, ast.Yield)]
+    if len(tries) != 1 or len(yields) != 1:
+        ctx.R.fail("OPT-2", mod, push, "push must save the option fields before overwriting them and restore them in a `finally` enclosing its single yield: "
                    "otherwise a nested extract that ends by exception leaves the inner options in force", construct="save / try: yield / finally: restore")
+        return
+    t = tries[0]
+    pre = push.body[:push.body.index(t)]
+    # saves: local name (and tuple position) -> field
+    saved: Dict[str, str] = {}
+    for s_ in pre:
+        if isinstance(s_, ast.Assign) and len(s_.targets) == 1 and isinstance(s_.targets[0], ast.Name):
+            v = s_.value
+            if isinstance(v, ast.Tuple) and all(isinstance(e, ast.Attribute) and norm(e.value) == "self" for e in v.elts):
+                for i, e in enumerate(v.elts):
+                    saved[f"{s_.targets[0].id}[{i}]"] = e.attr
+                saved[s_.targets[0].id] = "(" + ",".join(e.attr for e in v.elts) + ")"
+            elif isinstance(v, ast.Attribute) and norm(v.value) == "self":
+                saved[s_.targets[0].id] = v.attr
+    save_pos: Dict[str, int] = {}
+    for i_, s_ in enumerate(pre):
+        if isinstance(s_, ast.Assign) and len(s_.targets) == 1 and isinstance(s_.targets[0], ast.Name):
+            for e in ([s_.value] if isinstance(s_.value, ast.Attribute) else list(getattr(s_.value, "elts", []))):
+                if isinstance(e, ast.Attribute) and norm(e.value) == "self":
+                    save_pos.setdefault(e.attr, i_)
+    # restores at the top level of the finally
+    restored: Dict[str, bool] = {}
+    for s_ in t.finalbody:
+        if isinstance(s_, ast.Assign) and len(s_.targets) == 1:
+            tg, v = s_.targets[0], s_.value
+            if isinstance(tg, ast.Tuple) and all(isinstance(e, ast.Attribute) and norm(e.value) == "self" for e in tg.elts):
+                names = "(" + ",".join(e.attr for e in tg.elts) + ")"
+                if isinstance(v, ast.Name) and saved.get(v.id) == names:
+                    for e in tg.elts:
+                        restored[e.attr] = True
+                elif isinstance(v, ast.Tuple) and len(v.elts) == len(tg.elts) and all(saved.get(norm(x)) == e.attr for x, e in zip(v.elts, tg.elts)):
+                    for e in tg.elts:
+                        restored[e.attr] = True
+                else:
+                    for e in tg.elts:
+                        restored.setdefault(e.attr, False)
+            elif isinstance(tg, ast.Attribute) and norm(tg.value) == "self":
+                restored[tg.attr] = restored.get(tg.attr, False) or saved.get(norm(v)) == tg.attr
+    # writes anywhere in push (outside the finally's restores)
+    writes = [(w, cond) for w, cond in ((w, any(isinstance(a_, (ast.If, ast.For, ast.While)) for a_ in mod.ancestors(w) if any(a_ is x for x in ast.walk(push)) and a_ is not push))
+                                        for w in ast.walk(push) if isinstance(w, ast.Attribute) and isinstance(w.ctx, ast.Store) and norm(w.value) == "self")]
+    written = {}
+    for w, cond in writes:
+        st = _stmt(mod, w)
+        if any(st is x or any(st is y for y in ast.walk(x)) for x in t.finalbody):
+            if cond:
+                written.setdefault(w.attr, []).append(("restore-conditional", st))
+            continue
+        written.setdefault(w.attr, []).append(("conditional" if cond else "plain", st))
+    problems = []
+    for f_, evs in written.items():
+        if any(k == "conditional" for k, _ in evs) or any(k == "restore-conditional" for k, _ in evs):
+            problems.append((f_, [st for k, st in evs if k != "plain"][0], "is set or reset only under a condition"))
+        elif f_ not in saved.values() and not any(f_ in v.strip("()").split(",") for v in saved.values()):
+            problems.append((f_, evs[0][1], "is overwritten without its previous value being saved first"))
+        elif not restored.get(f_):
+            problems.append((f_, evs[0][1], "is not restored from the saved value in the finally"))
+        else:
+            first_write = min((push.body.index(st) for k, st in evs if st in push.body), default=None)
+            if first_write is not None and f_ in save_pos and first_write < save_pos[f_]:
+                problems.append((f_, evs[0][1], "is overwritten before its previous value is saved (the 'saved' value is already the new one)"))
+    wr = {w.attr: norm(_stmt(mod, w).value) for w, cond in writes if isinstance(_stmt(mod, w), ast.Assign) and isinstance(_stmt(mod, w).targets[0], ast.Attribute)
+          and not any(_stmt(mod, w) is x for x in t.finalbody)}
+    for o in ("with_contexts", "recurse_child_tasks"):
+        if wr.get(o) != o:
+            ctx.R.fail("OPT-2", mod, push, f"push must store its argument `{o}` into the same-named field (found {wr.get(o)})", construct="self.<opt> = <opt>")
+        elif not restored.get(o):
+            problems.append((o, push, "is not restored from the saved value in the finally"))
+    seen = set()
+    for f_, at, why in problems:
+        if f_ in seen:
+            continue
+        seen.add(f_)
+        ctx.R.fail("OPT-2", mod, at, f"ExtractOptions.{f_} {why}: every change push makes to the thread-local options must be scoped to that push "
+                   "(save, try: yield, finally: restore), otherwise an extraction and the extractions nested inside it (with other options) share that state, "
+                   "or a nested extract that ends by exception leaves its value in force", construct=f"options field {f_} not scoped per push")
+    if not problems and not any(f.rule == "OPT-2" for f in ctx.R.findings):
+        ctx.R.ok("OPT-2", f"push saves {sorted(written)} before writing them and restores exactly the saved values in a finally that encloses the yield")
 
 
 def opt3(ctx: Ctx) -> None:
